@@ -164,6 +164,9 @@ IdxFor(sh) ==
                        [t |-> "adv", arrs |-> <<[sh |-> <<3>>, v |-> <<0, 0, 2>>]>>, as |-> "tuple"],
                        [t |-> "adv", arrs |-> <<[sh |-> <<3>>, v |-> <<2, -2, 2>>]>>, as |-> "tensor"],
                        [t |-> "adv", arrs |-> <<[sh |-> <<3>>, v |-> <<1, 1, 1>>]>>, as |-> "list"],
+                       [t |-> "adv", arrs |-> <<[sh |-> <<3>>, v |-> <<0, 0, 2>>]>>, as |-> "i4"],       \* index arrays of other integer dtypes
+                       [t |-> "adv", arrs |-> <<[sh |-> <<3>>, v |-> <<2, -2, 2>>]>>, as |-> "i1"],
+                       [t |-> "adv", arrs |-> <<[sh |-> <<3>>, v |-> <<1, 1, 1>>]>>, as |-> "u1"],
                        [t |-> "adv", arrs |-> <<[sh |-> <<2, 2>>, v |-> <<1, -1, 0, 1>>]>>],
                        [t |-> "mask", m |-> [sh |-> <<sh[1]>>, v |-> [i \in 1..sh[1] |-> i % 2 = 1]]]}
   ELSE {Basic(<<IntI(0)>>), Basic(<<Full, IntI(-1)>>), Basic(<<SL(TRUE, 0, TRUE, 0, FALSE, -1), SL(FALSE, 1, TRUE, 0, TRUE, 1)>>),
@@ -172,6 +175,8 @@ IdxFor(sh) ==
         [t |-> "adv", arrs |-> <<[sh |-> <<3>>, v |-> <<1, 1, 1>>], [sh |-> <<3>>, v |-> <<0, 2, 0>>]>>, as |-> "tuple"],
         [t |-> "adv", arrs |-> <<[sh |-> <<3>>, v |-> <<1, 1, 1>>], [sh |-> <<3>>, v |-> <<0, 2, 0>>]>>, as |-> "tensor"],
         [t |-> "adv", arrs |-> <<[sh |-> <<3>>, v |-> <<0, 1, 0>>]>>],
+        [t |-> "adv", arrs |-> <<[sh |-> <<3>>, v |-> <<1, 1, 1>>], [sh |-> <<3>>, v |-> <<0, 2, 0>>]>>, as |-> "i2"],
+        [t |-> "adv", arrs |-> <<[sh |-> <<3>>, v |-> <<0, 1, 0>>]>>, as |-> "u4"],
         [t |-> "mask", m |-> [sh |-> sh, v |-> [i \in 1..Size(sh) |-> i % 3 # 0]]],
         [t |-> "mask", m |-> [sh |-> <<sh[1]>>, v |-> [i \in 1..sh[1] |-> i = 1]]]}
 GetProgs ==
